@@ -24,21 +24,29 @@ def run_e2e(args):
         rng = random.Random(a["seed"])
         ds = sp.mk(root, fmt=a["fmt"], comp=a["comp"], eps=a["eps"])
         order = {s: [] for s in I.SPLITS}
-        if a["mode"] == "session":
-            with ds.filler() as f:
-                for k, s in enumerate(a["writes"]):
-                    f.write_example(values=sp.val(k), split=I.SPLITS[s]); order[I.SPLITS[s]].append(k)
-        else:   # one multi-writer call, single_process so that the order of argument lists is the write order
-            def feed(filler, lo, hi, split):
-                with filler as f:
-                    for k in range(lo, hi):
-                        f.write_example(values=sp.val(k), split=split)
-                return hi - lo
-            lo = 0; argl = []
-            for n, s in a["writers"]:
-                argl.append((lo, lo + n, I.SPLITS[s])); order[I.SPLITS[s]] += list(range(lo, lo + n)); lo += n
-            ds.write_multiprocessing(feed_writer=feed, custom_arguments=argl, single_process=True)
-        rec = {"case": {k: a[k] for k in a if k != "root"}, "order": order, "runs": [], "batches": []}
+        sess_orders = []       # per session: {split: ids in write order}
+        lo = 0
+        def feed(filler, lo_, hi_, split):
+            with filler as f:
+                for k in range(lo_, hi_):
+                    f.write_example(values=sp.val(k), split=split)
+            return hi_ - lo_
+        for se in a["sessions"]:
+            so = {s: [] for s in I.SPLITS}
+            if se["mode"] == "session":
+                from sedpack.io.dataset_filler import DatasetFiller
+                from pathlib import Path as _P
+                with DatasetFiller(ds, relative_path_from_split=_P(se.get("sub", "."))) as f:
+                    for s in se["writes"]:
+                        f.write_example(values=sp.val(lo), split=I.SPLITS[s]); so[I.SPLITS[s]].append(lo); lo += 1
+            else:   # one multi-writer call, single_process so that the order of the argument list is the write order
+                argl = []
+                for n, s in se["writers"]:
+                    argl.append((lo, lo + n, I.SPLITS[s])); so[I.SPLITS[s]] += list(range(lo, lo + n)); lo += n
+                ds.write_multiprocessing(feed_writer=feed, custom_arguments=argl, single_process=True)
+            sess_orders.append(so)
+            for s in I.SPLITS: order[s] += so[s]
+        rec = {"case": {k: a[k] for k in a if k != "root"}, "order": order, "sess_orders": sess_orders, "runs": [], "batches": []}
         # log the batches of the unshuffled concurrent path
         RealTPE = DI.ThreadPoolExecutor
         batches_seen = []
@@ -95,18 +103,37 @@ def run_e2e(args):
 def gen(ctx):
     rng = ctx.rng("c03")
     cases = []
-    for i in range(ctx.pick(4, 18)):
+    for i in range(ctx.pick(5, 20)):
         fmt = ["fb", "npz", "tfrec"][i % 3]
         comp = rng.choice({"fb": ["", "LZ4", "GZIP"], "npz": ["", "ZIP"], "tfrec": ["", "GZIP"]}[fmt])
         eps = rng.choice([1, 2, 3])
         c = {"root": str(ctx.scratch / f"c03_{i}"), "fmt": fmt, "comp": comp, "eps": eps, "seed": rng.randrange(1 << 30), "thorough": ctx.thorough}
-        if i % 3 != 2:
+        def one_session():
             nsp = rng.choice([1, 2, 3])
-            c["mode"] = "session"; c["writes"] = [rng.randrange(nsp) for _ in range(rng.choice([1, eps + 1, 3 * eps + 1, 4 * eps + 2]))]
-        else:
-            c["mode"] = "multi"; c["writers"] = [(rng.choice([0, 1, eps, eps + 1, 2 * eps + 1]), rng.randrange(2)) for _ in range(rng.choice([1, 2, 3, 4]))]
-            if not any(n for n, _ in c["writers"]): c["writers"][0] = (eps + 1, 0)
+            return {"mode": "session", "sub": rng.choice([".", ".", "a", "a/y"]),
+                    "writes": [rng.randrange(nsp) for _ in range(rng.choice([1, eps + 1, 3 * eps + 1, 4 * eps + 2]))]}
+        def one_multi():
+            w = [(rng.choice([0, 1, eps, eps + 1, 2 * eps + 1]), rng.randrange(2)) for _ in range(rng.choice([2, 3, 4]))]
+            if not any(n for n, _ in w): w[0] = (eps + 1, 0)
+            return {"mode": "multi", "writers": w}
+        shape = i % 5
+        if shape == 0: c["sessions"] = [one_session()]
+        elif shape == 1: c["sessions"] = [one_multi()]
+        elif shape == 2: c["sessions"] = [one_multi(), one_session()]            # a later session must not disturb the earlier order
+        elif shape == 3: c["sessions"] = [one_session(), one_multi(), one_session()]
+        else: c["sessions"] = [one_multi(), one_multi()]
+        c["mode"] = "+".join(s["mode"] for s in c["sessions"])
         cases.append(c)
+    # directed: an earlier multi-writer / sub-directory session followed by later sessions touching the same split
+    directed = [
+        [{"mode": "multi", "writers": [(3, 0), (5, 0), (2, 0)]}, {"mode": "session", "sub": ".", "writes": [0, 0, 0]}],
+        [{"mode": "multi", "writers": [(2, 0), (2, 1), (3, 0)]}, {"mode": "multi", "writers": [(1, 0), (2, 0)]}, {"mode": "session", "sub": "a", "writes": [0, 1]}],
+        [{"mode": "session", "sub": "a", "writes": [0, 0, 0]}, {"mode": "session", "sub": "b", "writes": [0, 0]}, {"mode": "session", "sub": "a/y", "writes": [0, 0]},
+         {"mode": "session", "sub": ".", "writes": [0]}],
+    ]
+    for j, d in enumerate(directed):
+        cases.insert(0, {"root": str(ctx.scratch / f"c03_d{j}"), "fmt": ["fb", "npz", "tfrec"][j % 3], "comp": "", "eps": 2, "seed": j,
+                         "thorough": ctx.thorough, "sessions": d, "mode": "directed:" + "+".join(x["mode"] for x in d)})
     return cases
 
 
@@ -122,15 +149,19 @@ def run(ctx):
             if not order:
                 continue
             enum = r["enumerated"].get(split)
-            if enum != order:
-                ctx.report({"kind": "write-order", "mode": r["case"]["mode"]},
-                           f"split {split}: shards enumerate {enum} but the session wrote {order}", {"case": r["case"], "split": split})
+            # every session's examples must appear in the order written (later sessions must not disturb it)
+            for si, so in enumerate(r["sess_orders"]):
+                mine = set(so[split])
+                sub = [x for x in (enum or []) if x in mine]
+                if sub != so[split]:
+                    ctx.report({"kind": "write-order", "mode": r["case"]["mode"], "later_session": si + 1 < len(r["sess_orders"])},
+                               f"split {split}: session {si} wrote {so[split]} but the shards enumerate them as {sub}", {"case": r["case"], "split": split})
             for run_ in [x for x in r["runs"] if x["split"] == split]:
                 nruns += 1
-                if run_["got"] != order:
+                if run_["got"] != enum:
                     ctx.report({"kind": "sequence", "iface": run_["iface"]},
-                               f"{r['case']['fmt']} {run_['iface']} T={run_['T']} ({run_['handle']}) split {split}: {str(run_['got'])[:200]} != write order {order[:30]}",
-                               {"case": r["case"], "run": run_, "expected": order})
+                               f"{r['case']['fmt']} {run_['iface']} T={run_['T']} ({run_['handle']}) split {split}: {str(run_['got'])[:200]} != enumeration order {str(enum)[:120]}",
+                               {"case": r["case"], "run": run_, "expected": enum})
                 distinct.add((r["case"]["fmt"], r["case"]["mode"], run_["iface"], min(run_["T"], 4), run_["handle"]))
         for b in r["batches"]:
             ids = {p: k for k, p in enumerate(b["paths"])}
